@@ -47,20 +47,45 @@ impl Loader for FsLoader {
     type File = std::fs::File;
 
     fn find_file(&self, url: &str) -> Result<Option<Self::File>, LoadError> {
-        if !url.is_empty() {
-            for base in &self.path {
-                let full = base.join(url);
-                if full.is_file() {
-                    tracing::debug!(?full, "opening file");
-                    return Self::File::open(&full)
-                        .map_err(|e| {
-                            LoadError::Input(full.display().to_string(), e)
-                        })
-                        .map(Some);
-                }
-                tracing::trace!(?full, "Not found");
+        for base in &self.path {
+            if let Some(file) = open_in(base, url)? {
+                return Ok(Some(file));
             }
         }
+        Ok(None)
+    }
+
+    fn find_first(
+        &self,
+        urls: &[String],
+    ) -> Result<Option<(usize, Self::File)>, LoadError> {
+        for base in &self.path {
+            for (i, url) in urls.iter().enumerate() {
+                if let Some(file) = open_in(base, url)? {
+                    return Ok(Some((i, file)));
+                }
+            }
+        }
+        Ok(None)
+    }
+}
+
+/// Open the file for `url` in the directory `base`, if there is one.
+fn open_in(
+    base: &Path,
+    url: &str,
+) -> Result<Option<std::fs::File>, LoadError> {
+    if url.is_empty() {
+        return Ok(None);
+    }
+    let full = base.join(url);
+    if full.is_file() {
+        tracing::debug!(?full, "opening file");
+        std::fs::File::open(&full)
+            .map_err(|e| LoadError::Input(full.display().to_string(), e))
+            .map(Some)
+    } else {
+        tracing::trace!(?full, "Not found");
         Ok(None)
     }
 }
